@@ -13,8 +13,11 @@ CLAIM = dict(
          "must equal wiring_spec computed from the composition graph alone (Graph.v model replaying the same API "
          "history), up to the numbering of instances. Coq theorems: decode_scoped / structural_indices_in_scope (a decodable "
          "log has no dangling or ill-sorted index), wiring_correct and each_package_once for a model of the structural "
-         "encoder (every topological emission order, every behaviour of the type encoder; name section included), and two "
-         "_refuted witnesses showing the side conditions are needed (both are findings of the real code). The model encoder "
+         "encoder (every topological emission order, every behaviour of the type encoder; name section included); "
+         "wiring_correct_reachable for every graph built through the API (the side condition about the graph is derived: a "
+         "definition has one export name since export() renames it), one _refuted witness showing the remaining side condition "
+         "(import dedup by interface id) is needed (a finding of the real code), and the regression instance of the repaired "
+         "definition-rename defect. The model encoder "
          "is tied to the code on every run: replaying the real type-encoder items it must reproduce the real item log and "
          "name section exactly.",
     design_ref="DESIGN.md §5 C02, Appendix A.3",
@@ -31,9 +34,9 @@ W_DEPLOW = "H reg 11;reg 10;inst 1 0;alias 0 19;inst 0 0;setarg 2 30 1;inst 0 0"
 # Findings proposed to the main session (which owns /verif/known-findings.json); consulted locally so that the check is
 # strict (failing cases are evaluated and classified) without alarming on the unchanged tree.
 PROPOSED_KNOWN = [
-    dict(property=PID, id="C02-def-extra-export-name", status="known", signature=ec.SIG_DEF_EXTRA_NAME, witness=W_DEF,
-         text="export(definition_node, \"bar\") on a type definition `foo`: get_export answers for both names, the encoded "
-              "component exports only `bar` (the definition's own name is lost, the extra name is never bound)"),
+    dict(property=PID, id="C02-def-extra-export-name", status="fixed", signature=ec.SIG_DEF_EXTRA_NAME, witness=W_DEF,
+         text="fixed: property=C02 1d500c2 export(definition_node, \"bar\") on a type definition `foo`: get_export answered for "
+              "both names, the encoded component exported only `bar` (the definition's own name was lost, the extra name never bound)"),
     dict(property=PID, id="C02-import-dedup-by-interface-id", status="known", signature=ec.SIG_IMPORT_DEDUP, witness=W_DEDUP,
          text="an explicit import `my-t` whose interface id a:b/c@0.2.0 is also imported implicitly is not emitted; the "
               "instantiation argument that designates the `my-t` node is wired to the implicit import instead"),
@@ -111,6 +114,17 @@ def check_row(row, names):
             fails.append((m, "output not readable at section level: " + im[m + ".bad"][:200], [])); continue
         if mo.get(m + ".scope") != "1" or mo.get(m + ".dec") in (None, "NONE"):
             fails.append((m, "an instantiate/alias/export item uses a dangling or ill-sorted index", [])); continue
+        # the exports of the REAL output are exactly the names of the export map of the IMPLEMENTATION's graph
+        # (get_export over the name pool), definitions included
+        dec_exports = {e.split("~")[0] for e in dict(p.split("=", 1) for p in mo[m + ".dec"].split("#"))["exports"].split(";") if e}
+        map_names = ec.impl_export_names(row, names)
+        if dec_exports != map_names:
+            md = ec.multi_named_defs(row)
+            bad = {names[i] for v in md.values() for i in v}
+            ids = ["C02-def-extra-export-name"] if md and dec_exports - bad == map_names - bad else []
+            fails.append((m, f"the output exports {sorted(dec_exports)} but the graph's export map has {sorted(map_names)}"
+                          + (" (a type definition designated by several names: only its last name is encoded)" if ids else ""), ids))
+            continue
         if mo.get(m + ".tv") == "1":
             continue
         if m + ".specasc" not in mo:
